@@ -582,6 +582,11 @@ template <typename D1, typename D2, typename R>
 inline void
 Partially_Reduced_Product<D1, D2, R>
 ::add_space_dimensions_and_embed(dimension_type m) {
+  if (m > max_space_dimension() - space_dimension()) {
+    throw_space_dimension_overflow("add_space_dimensions_and_embed(m)",
+                                   "adding m new space dimensions exceeds "
+                                   "the maximum allowed space dimension");
+  }
   d1.add_space_dimensions_and_embed(m);
   d2.add_space_dimensions_and_embed(m);
 }
@@ -590,6 +595,11 @@ template <typename D1, typename D2, typename R>
 inline void
 Partially_Reduced_Product<D1, D2, R>
 ::add_space_dimensions_and_project(dimension_type m) {
+  if (m > max_space_dimension() - space_dimension()) {
+    throw_space_dimension_overflow("add_space_dimensions_and_project(m)",
+                                   "adding m new space dimensions exceeds "
+                                   "the maximum allowed space dimension");
+  }
   d1.add_space_dimensions_and_project(m);
   d2.add_space_dimensions_and_project(m);
 }
@@ -634,6 +644,11 @@ template <typename D1, typename D2, typename R>
 inline void
 Partially_Reduced_Product<D1, D2, R>
 ::expand_space_dimension(Variable var, dimension_type m) {
+  if (m > max_space_dimension() - space_dimension()) {
+    throw_space_dimension_overflow("expand_space_dimension(v, m)",
+                                   "adding m new space dimensions exceeds "
+                                   "the maximum allowed space dimension");
+  }
   d1.expand_space_dimension(var, m);
   d2.expand_space_dimension(var, m);
 }
